@@ -114,6 +114,24 @@ Theorem C06_sturm_sequence_checker : forall (R : rcfType) (f : list Z) (ch : lis
 Proof. exact check_sturm_correct. Qed.
 Print Assumptions C06_sturm_sequence_checker.
 
+(* libpoly's own Sturm computation (faithful model of upolynomial_dense_reduce_Z and of
+   upolynomial_compute_sturm_sequence with its sign correction "negate when a > 0", repaired to stop at a zero
+   remainder): the reduction is a pseudo-division with a non-zero (possibly NEGATIVE) multiplier ... *)
+Theorem C06_libpoly_reduce_Z : forall a b : list Z, Poly b != 0 -> (size (Poly b) <= size (Poly a))%N ->
+  [/\ (lp_reduce_Z a b).1 != 0,
+      exists D, (lp_reduce_Z a b).1 *: Poly a = D * Poly b + Poly (lp_reduce_Z a b).2
+    & (size (Poly (lp_reduce_Z a b).2) < size (Poly b))%N].
+Proof. exact lp_reduce_ZP. Qed.
+Print Assumptions C06_libpoly_reduce_Z.
+
+(* ... and the sequence it builds has the whole-line sign-variation property for EVERY non-constant integer
+   polynomial (multiple roots, negative leading coefficient, content): V(-inf) - V(+inf) = number of distinct
+   real roots.  This is the theorem that fails if the sign correction is forgotten or inverted. *)
+Theorem C06_libpoly_sturm_sequence : forall (R : rcfType) (f : list Z), (1 < size (PR R f))%N ->
+  (sturm_var (lp_sturm_sequence f) MInf - sturm_var (lp_sturm_sequence f) PInf)%N = size (rootsR (PR R f)).
+Proof. exact lp_sturm_sequence_correct. Qed.
+Print Assumptions C06_libpoly_sturm_sequence.
+
 (* COND: the REPAIRED end-point rule of sturm_seqence_count_roots (faithful model lp_count_roots_gen true) is
    right for every interval lo < hi, GIVEN the (a,b] sign-variation property of the sequence at finite points
    (premise sturm_oc_correct: Sturm's theorem with zero skipping - not proved, validated by sampling).
